@@ -84,6 +84,10 @@ type Collector struct {
 	Violations []Violation                `json:"violations"`
 	Notes      []string                   `json:"notes"`
 	markFile   *os.File
+	violFile   *os.File // violations are appended as found so that they survive a hung or dying child
+	doneFile   *os.File // completed units, one per line
+	seed       uint64
+	tier       string
 	lastMark   []byte
 	markTime   time.Time
 	maxSamples int
@@ -163,7 +167,13 @@ func (c *Collector) Violate(v *Violation) {
 	if n >= 5 || len(c.Violations) >= 40 {
 		return
 	}
+	v.Seed, v.Tier = c.seed, c.tier
 	c.Violations = append(c.Violations, *v)
+	if c.violFile != nil {
+		if bs, err := json.Marshal(v); err == nil {
+			c.violFile.Write(append(bs, '\n'))
+		}
+	}
 }
 
 // Mark records, outside the Go heap, which Case is about to execute, so that
